@@ -54,7 +54,8 @@ def check_case(case, ctx):
         par = case["params"]
         img, info = P.build_pe(_rng(case["seed"]), **{k: par[k] for k in ("arch", "lfanew", "magic_mz", "magic_pe", "compile_stamp",
                                                                             "export_stamp", "nsec", "export_section", "data", "vsize_mode", "export_at_start")},
-                                dos_mode=par.get("dos_mode", "random"), dos_stub_start=par.get("dos_stub_start", b""), opt_magic=par.get("opt_magic"))
+                                dos_mode=par.get("dos_mode", "random"), dos_stub_start=par.get("dos_stub_start", b""), opt_magic=par.get("opt_magic"),
+                                sec_raw=par.get("sec_raw", 0x200))
         lf = par["lfanew"]
         if any(struct.unpack_from("<I", img, k + 60)[0] == lf - k and lf - k >= 64 for k in range(1, lf - 63)):
             # the DOS area itself holds a second complete header window for the same PE header (a dword e_lfanew - k at
@@ -71,6 +72,14 @@ def check_case(case, ctx):
                 ctx.violation("pe.artifacts", f"XorEncoded stage not opened: {type(e).__name__}: {e}", case)
                 return
             wire = enc
+        elif par.get("fileobj") == "mmap":
+            # a memory-mapped stage: positions beyond its end are refused, not read as empty
+            import mmap
+
+            fh = mmap.mmap(-1, len(stage))
+            fh.write(stage)
+            fh.seek(0)
+            wire = stage
         else:
             fh = io.BytesIO(stage)
             wire = stage
@@ -125,7 +134,8 @@ def check_case(case, ctx):
                         f"append:{'none' if not append else 'some'}", f"export:{'none' if par['export_section'] is None else 'sec%d' % min(par['export_section'], par['nsec'] - 1)}",
                         f"nsec:{par['nsec']}", f"magic_mz:{len(par['magic_mz'])}", f"magic_pe:{len(par['magic_pe'])}",
                         f"vsize:{par['vsize_mode']}", "export:section-start" if par["export_at_start"] and par["export_section"] is not None else "export:inside",
-                        f"config:{'none' if not par['data'] else 'guardrails' if par.get('guarded') else 'plain'}"))
+                        f"config:{'none' if not par['data'] else 'guardrails' if par.get('guarded') else 'plain'}", f"file:{par.get('fileobj', 'bytesio')}",
+                        "stage:tiny" if par.get("sec_raw") else "stage:normal"))
     elif op == "version":
         stamp, maxenum = case["stamp"], case["maxenum"]
         ctx.mon("version.precedence")
@@ -257,8 +267,26 @@ def gen_image(rng, version):
         append = P.filler(rng, rng.choice([1, 4, 100, 1024, rng.randrange(1, 1025)])).rstrip(b"\0") or b"\x01"
         if append[-1] == 0:
             append = append[:-1] + b"\x01"
+    extra = {}
+    if rng.random() < 0.15:
+        extra["fileobj"] = "mmap"
+    if rng.random() < 0.1 and not guarded:
+        # a tiny stage (one 64-byte section) behind prepended bytes that hold an e_lfanew look-alike pointing beyond the end
+        # of the file: not a header, the scan goes on to the real one
+        data, nsec = b"", 1
+        extra["sec_raw"] = 64
+        extra["fileobj"] = rng.choice(["mmap", "mmap", "bytesio"])
+        prepend_len = rng.choice([64, 100, 300])
+        b = bytearray(b"\x90" * prepend_len if rng.random() < 0.5 else P.filler(rng, prepend_len))
+        k = rng.randrange(0, prepend_len - 63)
+        b[k + 60 : k + 64] = struct.pack("<I", rng.randrange(900, 1024))
+        prepend = bytes(b)
+        append = b""
+        extra["lfanew"] = rng.choice([64, 0x80])
+    xorenc = rng.random() < 0.35 and "fileobj" not in extra
     return {
-        "arch": arch, "lfanew": rng.choice([64, 0x80, 0xF8, 1000, rng.randrange(64, 1001), rng.randrange(64, 260), rng.choice([172, 176, 183, 198, 0xE8])]),
+        **extra,
+        "arch": arch, "lfanew": extra.get("lfanew") or rng.choice([64, 0x80, 0xF8, 1000, rng.randrange(64, 1001), rng.randrange(64, 260), rng.choice([172, 176, 183, 198, 0xE8])]),
         "magic_mz": magic_mz, "magic_pe": magic_pe, "dos_mode": rng.choice(["random", "genuine"]),
         # DOS stub bytes that continue e_lfanew = e8 00 00 00 into the other architecture's bootstrap pattern (e8 00 00 00 00 5b)
         "opt_magic": rng.choice([None, None, None, 0, 0x10B, 0x20B, rng.randrange(0, 0x10000)]),
@@ -267,8 +295,8 @@ def gen_image(rng, version):
         "export_stamp": rng.choice([rng.choice(stamps), rng.choice(stamps), rng.choice(stamps) + rng.choice([-1, 1]), 1, 2**32 - 1, rng.randrange(1, 2**32)]),
         "nsec": nsec, "export_section": rng.choice([None, 0, 1, nsec - 1, rng.randrange(0, nsec)]), "data": data,
         "prepend": prepend, "append": append, "nulpad": bytes(rng.choice([0, 0, 3, 64])) if append else bytes(rng.choice([0, 0, 0, 16])),
-        "xorenc": rng.random() < 0.35, "nonce": rng.randbytes(4), "stub": P.filler(rng, rng.choice([0, 57, rng.randrange(0, 800)])),
-        "vsize_mode": rng.choice(["raw", "aligned"]), "export_at_start": rng.random() < 0.5, "guarded": guarded,
+        "xorenc": xorenc, "nonce": rng.randbytes(4), "stub": P.filler(rng, rng.choice([0, 57, rng.randrange(0, 800)])),
+        "vsize_mode": rng.choice(["raw", "aligned"]), "export_at_start": rng.random() < 0.5 or "sec_raw" in extra, "guarded": guarded,
     }
 
 
@@ -305,10 +333,16 @@ def run_shard(shard, ctx):
         for en in range(1, 90):
             check_case({"op": "version", "stamp": None, "maxenum": en}, ctx)
             check_case({"op": "version", "stamp": 0, "maxenum": en}, ctx)
+        # one number looked up in both tables, in either order (a tiny export stamp that is also a setting index, a setting
+        # index that is also a stamp): each lookup answers from its own table
+        for en in range(1, 90):
+            order = [{"op": "version", "stamp": None, "maxenum": en}, {"op": "version", "stamp": en, "maxenum": 1}]
+            for c in order if en % 2 else order[::-1]:
+                check_case(c, ctx)
         for _ in range(shard["n"]):
             if ctx.out_of_time():
                 break
-            st = rng.choice([None, rng.choice(stamps), rng.randrange(1, 2**32), rng.choice(stamps) + rng.choice([-1, 1])])
+            st = rng.choice([None, rng.choice(stamps), rng.randrange(1, 2**32), rng.choice(stamps) + rng.choice([-1, 1]), rng.randrange(1, 90)])
             check_case({"op": "version", "stamp": st, "maxenum": rng.choice(enums + [rng.randrange(1, 200)])}, ctx)
             mon = rng.choice(list(MONTHS))
             maj, mi, pa = rng.randrange(0, 20), rng.randrange(0, 30), rng.choice([None, None, rng.randrange(0, 12)])
